@@ -318,10 +318,11 @@ Fixpoint deliver_all (f : frame) (ss : list (N * streamer)) : list (list (N * st
         (if s_ready s then [] else map (cons (k, drop f s)) rs)
       else map (cons (k, s)) rs
   end.
-(* outcomes of a send interrupted by the relay's cancellation: a proper prefix served *)
+(* outcomes of a send interrupted by the relay's cancellation: a prefix (in connection
+   order) of the streamers served, the others not *)
 Fixpoint deliver_prefix (f : frame) (ss : list (N * streamer)) : list (list (N * streamer)) :=
   match ss with
-  | [] => []
+  | [] => [[]]
   | (k, s) :: r =>
       [ (k, s) :: r ] ++
       (if s_conn s then
